@@ -1,6 +1,10 @@
 package ev
 
-import "flag"
+import (
+	"flag"
+	"os"
+	"strings"
+)
 
 func flagSet(name, value string) error {
 	if flag.Lookup(name) == nil {
@@ -9,12 +13,23 @@ func flagSet(name, value string) error {
 	return flag.Set(name, value)
 }
 
+// fuzzMode reports whether this process is the coordinator or a worker of native fuzzing.  TestMain runs
+// before the testing flags are parsed, so the command line is inspected as well as the flag set.
 func fuzzMode() bool {
 	if f := flag.Lookup("test.fuzz"); f != nil && f.Value.String() != "" {
 		return true
 	}
 	if f := flag.Lookup("test.fuzzworker"); f != nil && f.Value.String() == "true" {
 		return true
+	}
+	for _, a := range os.Args[1:] {
+		a = strings.TrimLeft(a, "-")
+		if v, ok := strings.CutPrefix(a, "test.fuzz="); ok && v != "" {
+			return true
+		}
+		if a == "test.fuzzworker" || a == "test.fuzzworker=true" {
+			return true
+		}
 	}
 	return false
 }
